@@ -135,6 +135,18 @@ CHECKS = {
               "identified as the TLC-computed Gap set and the code answering exactly what the Impl model answers."),
         design_ref="DESIGN.md sections 3.6, 5 (C12)",
     ),
+    "C13": dict(
+        category="model_checking",
+        technique="TLA+ model of source geometry (Geometry.tla: cells with character / UTF-8 lengths and two line rules); TLC checks the offset algorithm against the definition of a span on every layout; every layout and API case replayed into the re-like API and the command line finder",
+        text=("Geometry.tla enumerates layouts (special characters in earlier lines, between definitions and earlier on the node's line; LF / CRLF / CR; "
+              "missing final newline; indentation; node shapes incl. multi-line, parenthesised and decorated definitions) and computes IdealSpan and "
+              "the line / column of its start; TLC checks that the transcribed algorithm of core.get_charnos equals it (and shows that the pre-repair "
+              "algorithms do not). Every layout is rendered, IdealSpan is validated against ast.get_source_segment, then finditer / findall / search "
+              "and `pattern_matching find` are run and compared. A second generator enumerates modules of 1..3 statements x pattern kinds x leading "
+              "lines with the ideal answers of match / fullmatch / number of matches."),
+        note="Trusted: TLC; CPython's ast positions as ground truth (exit 2 on disagreement with the spec).",
+        design_ref="DESIGN.md sections 3.6, 5 (C13)",
+    ),
     "C15": dict(
         category="model_checking",
         technique="TLA+ reference semantics of constant expressions (ConstEval.tla) enumerated by TLC, validated against CPython eval, replayed into core.literal_value; consumer programs traced through format_code",
